@@ -36,9 +36,9 @@ t3.Log = t3_wlptr.PathLog     # the popwait projection also reads the raw log (t
 
 def scenario_params(rng):
     if rng.below(5) < 2:
-        return ["cond", 1 + rng.below(3), 3 + rng.below(5), 1 + rng.below(3), 35, 0]
+        return ["cond", 1 + rng.below(3), 3 + rng.below(5), 1 + rng.below(3), 35, 0, rng.below(2)]
     # long queues: 4-8 waiters, timed/untimed, ULT/external, staggered deadlines (head / middle / tail time-outs)
-    return ["condq", 1 + rng.below(3), 5 + rng.below(5), 1 + rng.below(2), 20 + 10 * rng.below(4), 0]
+    return ["condq", 1 + rng.below(3), 5 + rng.below(5), 1 + rng.below(2), 20 + 10 * rng.below(4), 0, rng.below(2)]
 
 
 def validate(lg, params):
